@@ -67,6 +67,8 @@ def gen_cases(rng, tier, ctx):
                 b = rng.below(B)
                 ks = rng.sample(block_positions(sp, b), rng.range(1, t))
                 cs.append({'line': 'dm_flip_codewords %d %s %s' % (i, fmt_list(cw), fmt_list(ks)), 'cat': 'modules', 'orig': cw, 'sym': i, 'nerr': len(ks)})
+    import corpus
+    cs += corpus.rs_singular_cases()
     return cs
 
 
